@@ -139,7 +139,7 @@ class Fam:
             keep = []
             for p in res.props:
                 tags = self.tags_at(tname, p.loc)
-                if tags and pid not in tags:
+                if tags and pid not in tags and not (tags & getattr(self, "also_tags", set())):
                     continue
                 keep.append(p)
             res.props = keep
